@@ -165,10 +165,10 @@ type Conn struct {
 	sent, rcvd uint64
 }
 
-func (c *Conn) ID() uint64         { return c.id }
-func (c *Conn) LocalHost() string  { return hostOf(c.local) }
-func (c *Conn) RemoteHost() string { return hostOf(c.remote) }
-func (c *Conn) IsDialer() bool     { return c.dialer }
+func (c *Conn) ID() uint64           { return c.id }
+func (c *Conn) LocalHost() string    { return hostOf(c.local) }
+func (c *Conn) RemoteHost() string   { return hostOf(c.remote) }
+func (c *Conn) IsDialer() bool       { return c.dialer }
 func (c *Conn) LocalAddr() net.Addr  { return Addr(c.local) }
 func (c *Conn) RemoteAddr() net.Addr { return Addr(c.remote) }
 
@@ -387,10 +387,12 @@ func (n *Net) PendingHeads() []Pending {
 		if !c.dialer {
 			dir = "a"
 		}
-		sum := sha1.Sum(h.data)
+		// (src, dst, direction, creation ordinal) identifies the endpoint; payload
+		// bytes are deliberately not part of the key (they may contain values the
+		// simulator does not control, e.g. SQLite's random WAL salts).
 		var ob [8]byte
 		binary.BigEndian.PutUint64(ob[:], c.ordinal)
-		key := fmt.Sprintf("%s>%s/%s/%x/%x/%d", c.LocalHost(), c.RemoteHost(), dir, sum[:6], ob, btoi(h.fin))
+		key := fmt.Sprintf("%s>%s/%s/%x/%d", c.LocalHost(), c.RemoteHost(), dir, ob[4:], btoi(h.fin))
 		ps = append(ps, Pending{C: c, Key: key, Size: len(h.data), Fin: h.fin})
 	}
 	sort.Slice(ps, func(i, j int) bool { return ps[i].Key < ps[j].Key })
